@@ -23,4 +23,4 @@ For each change i in {{1,2}} deliver in {out}/:
   * patch{{i}}.diff  — `git diff` of the change (non-test files only), applying cleanly to the worktree HEAD with `git apply`;
   * demo{{i}}_test.go (a Go test file, stating in a comment which package directory it must be copied into) or demo{{i}}/main.go (a small program) that FAILS (non-zero exit) with the change applied and PASSES without it — verify both directions yourself;
   * meta{{i}}.json — {{"property": "{pid}", "summary": "...", "needs_to_manifest": "...", "files_changed": [...], "demo_cmd": "...", "demo_fails_with_patch": true, "demo_passes_without_patch": true, "suite_cmd": "...", "suite_passes_with_patch": true}}.
-You MUST confirm that the existing tests still pass with each change applied: at least `go test -count=1 ./<changed package>/... ` plus every package that imports it that is plausibly affected, and then the whole suite once per patch: `go test -count=1 -timeout 25m ./... 2>&1 | tail -40` (note: three tests in package pkcs7 fail even on the unchanged tree in this sandbox — ignore exactly those pre-existing failures; compare against a run without your patch if unsure). If a change makes an existing test fail, it does not qualify: pick another. Leave the worktree clean at the end (`git checkout -- . && git status --short` shows nothing; remove your demo files from the tree). Final message: for each change, 3-6 lines: what it is, why tests miss it, what exactly triggers it, and the commands you ran with their outcome.""")
+You MUST confirm that the existing tests still pass with each change applied: at least `go test -count=1 ./<changed package>/... ` plus every package that imports it that is plausibly affected, and then the whole suite once per patch: `go test -count=1 -timeout 25m ./... 2>&1 | tail -40` (note: three tests in package pkcs7 fail even on the unchanged tree in this sandbox — ignore exactly those pre-existing failures; compare against a run without your patch if unsure). If a change makes an existing test fail, it does not qualify: pick another. Never use `git stash` (the stash is shared with other worktrees of this repository and other people are working in them): to test without your change use `git diff > /tmp/...-out/wip.diff; git checkout -- .; ...; git apply wip.diff`. Leave the worktree clean at the end (`git checkout -- . && git status --short` shows nothing; remove your demo files from the tree). Final message: for each change, 3-6 lines: what it is, why tests miss it, what exactly triggers it, and the commands you ran with their outcome.""")
